@@ -193,6 +193,28 @@ Case genCase(bool small) {
   return c;
 }
 
+// polytree execution on tiny grids: overlapping collinear horizontal edges, joins and splits are the norm there,
+// and the tree builder allocates in the middle of re-linking rings
+Case genCaseTreeSmall() {
+  Case c;
+  c.i["op"] = BoolTree;
+  int64_t g = G::range(3, 7);
+  auto poly = [&]() { Path64 p; int n = (int)G::range(3, 8); for (int k = 0; k < n; ++k) p.emplace_back(G::range(0, g), G::range(0, g)); return p; };
+  Paths64 a, b;
+  int na = (int)G::range(1, 3), nb = (int)G::range(0, 2);
+  if (G::coin()) {
+    GEN::Lattice L{g, 1, 0, 0};
+    for (int k = 0; k < na; ++k) a.push_back(GEN::rectWalk(L));
+    for (int k = 0; k < nb; ++k) b.push_back(GEN::rectWalk(L));
+  } else {
+    for (int k = 0; k < na; ++k) a.push_back(poly());
+    for (int k = 0; k < nb; ++k) b.push_back(poly());
+  }
+  c.p["a"] = a; c.p["b"] = b;
+  c.i["ct"] = G::range(1, 4); c.i["fr"] = G::range(0, 3); c.i["pc"] = G::range(0, 1); c.i["rev"] = G::range(0, 1);
+  return c;
+}
+
 Verdict judgeDeg(const Case& c) {
   Verdict v;
   int op = (int)c.I("op");
@@ -253,5 +275,6 @@ int main(int argc, char** argv) {
   H.property = "C10";
   H.parts.push_back({"deg", [] { return genCase(false); }, judgeDeg, nullptr, true});
   H.parts.push_back({"allocfail", [] { return genCase(true); }, judgeAlloc, nullptr, true});
+  H.parts.push_back({"allocfail_tree", genCaseTreeSmall, judgeAlloc, nullptr, true});
   return harnessMain(argc, argv, H);
 }
